@@ -309,7 +309,7 @@ func vDiskCase(t *testing.T, rec *vCase, rng *vRand, ci int) {
 		opKind := ""
 		switch x := rng.Intn(100); {
 		case x < 42: // ---- put
-			variant := []string{"exact", "exact", "exact", "short", "long", "fault", "faultMid", "badhash", "wrongsize", "sizeNeg", "badHashLen", "empty"}[rng.Intn(12)]
+			variant := []string{"exact", "exact", "exact", "short", "long", "fault", "faultMid", "badhash", "wrongsize", "sizeNeg", "badHashLen", "empty", "emptyDeclared"}[rng.Intn(13)]
 			data := k.data
 			declared := int64(len(data))
 			dlen := len(data)
@@ -342,6 +342,10 @@ func vDiskCase(t *testing.T, rec *vCase, rng *vRand, ci int) {
 				if rng.Pct(50) {
 					hash = emptySha256
 				}
+			case "emptyDeclared":
+				// bytes uploaded under the digest of the empty blob (F37)
+				declared, hash = 0, emptySha256
+				dlen = 1 + rng.Intn(len(data))
 			}
 			full := vGenBytes(k.a, k.m, k.c, dlen)
 			if dlen <= len(data) && variant != "long" {
